@@ -241,3 +241,74 @@ def h_transfer(s0: bool, s1: bool, s2: bool, p0: bool, p1: bool, p2: bool, pd0: 
 
 
 VERIF_CORRUPT = bool(cube("corrupt", False))
+
+
+def h_index_history(gc: bool, del0: bool, del1: bool, x1: bool, x2: bool, xb: bool) -> bool:
+    """
+    post: _
+    """
+    # two pushes sharing one destination index, with a (closure-preserving) garbage collection of the remote in between:
+    # directory A = [f0, f1] is pushed and indexed; the remote then drops A.dir and some of A's files; directory B = [f1, f2], which
+    # shares f1 with A, is pushed.  Whatever the index still claims, B.dir may only arrive together with f1 and f2.
+    gc, del0, del1 = B(gc), B(del0), B(del1)
+    env = make_env()
+    try:
+        with NoTracing():
+            cont = [b"h0", b"h1-shared", b"h2"]
+            fo = [hashlib.md5(c).hexdigest() for c in cont]
+
+            def mk(idxs):
+                t = Tree()
+                for i in idxs:
+                    t.add((f"n{i}",), None, HashInfo("md5", fo[i]))
+                t.digest()
+                return t
+
+            ta, tb = mk([0, 1]), mk([1, 2])
+            src = env.base_odb("src")
+            dst = {"local": env.local_odb, "base": env.base_odb, "remote": env.remote_odb}[DST]("dst")
+            for o, d in list(zip(fo, cont)) + [(ta.oid, ta.as_bytes()), (tb.oid, tb.as_bytes())]:
+                env.write(src.oid_to_path(o), d)
+            index = env.odb_index()
+        try:
+            env.faults.fail = set()
+            transfer(src, dst, {ta.hash_info, HashInfo("md5", fo[0]), HashInfo("md5", fo[1])}, dest_index=index, cache_odb=src)
+        except HarnessGap:
+            raise
+        except Exception as e:  # noqa: BLE001
+            violation("transfer-raised", f"{type(e).__name__}: {e}")
+            return True
+        with NoTracing():
+            if gc:  # the remote is collected by someone else: A goes away as a directory, its files partly
+                for o, yes in ((ta.oid, True), (fo[0], del0), (fo[1], del1)):
+                    p = dst.oid_to_path(o)
+                    if yes and env.exists(p, fs=dst.fs):
+                        env.remove(p, fs=dst.fs)
+        bits = {fo[1]: x1, fo[2]: x2, tb.oid: xb}
+        decided = {}
+
+        class LazyFail:
+            def __contains__(self, path):
+                oid = "".join(path.replace("\\", "/").split("/")[-2:])
+                if oid not in decided:
+                    decided[oid] = B(bits.get(oid, False))
+                return decided[oid]
+
+        env.faults.fail = LazyFail()
+        try:
+            res = transfer(src, dst, {tb.hash_info, HashInfo("md5", fo[1]), HashInfo("md5", fo[2])}, dest_index=index, cache_odb=src)
+        except HarnessGap:
+            raise
+        except Exception as e:  # noqa: BLE001
+            violation("transfer-raised", f"{type(e).__name__}: {e}")
+            return True
+        bad, have = _closure_violations(env, dst, [ta, tb])
+        with NoTracing():
+            if bad:
+                violation("dir-in-dest-without-listed-file", bad)
+            if tb.oid not in have and tb.hash_info not in res.failed and not any(decided.values()):
+                violation("fault-free-push-did-not-deliver-directory", tb.oid)
+        journal({"gc": gc, "del": [int(del0), int(del1)], "fail": sorted(k[:6] for k, v in decided.items() if v)}, nontrivial=True)
+        return True
+    finally:
+        env.close()
